@@ -365,28 +365,26 @@ def r_callbacks(repo, rep, R):
         w = '%s:%s run.%s' % (REL, fn.lineno, fn.name)
         ids = [a.arg for a in fn.args.args]
         paths = [(st, out) for st, out in SymExec(fn, unroll=1).run()]
-        entered = [st for st, out in paths if any(e[0] == 'loop-enter' for e in st.events)]
-        ok = len(entered) == 1 and all(out == 'return' for _, out in paths)
-        detail = '%d loop-body paths' % len(entered)
+        rets = [st.ret for st, out in paths if out == 'return']
+        ok = len(paths) == 1 and len(rets) == 1 and rets[0] is not None and rets[0][0] == 'listcomp' and len(rets[0][2]) == 1
+        detail = '%d paths, returning %s' % (len(paths), [show(r)[:100] if r else None for r in rets])
         if ok:
-            st = entered[0]
-            apps = [e[1] for e in st.events if e[0] == 'call' and is_method_call(e[1], 'append')]
-            loop = [e for e in st.events if e[0] == 'loop-enter'][0]
-            it = loop[1]
+            r = rets[0]
+            it, filt = r[2][0]
             nargs = 2 if kind == 'binary' else 1
             want_args = tuple(S(N(_TABLE[0]), N(i)) for i in ids[:nargs])
             gram = ('call', N(p_bin if kind == 'binary' else p_un), want_args, ())
             ok = (it == ('call', N('enumerate'), (gram,), ()) or it == ('call', N('enumerate'), (gram, C(0)), ())
-                  or it == ('call', N('enumerate'), (gram,), (('start', C(0)),)))
-            detail = 'iterates %s' % show(it)
+                  or it == ('call', N('enumerate'), (gram,), (('start', C(0)),))) and not filt
+            detail = 'iterates %s%s' % (show(it), ' filtered by %s' % [show(c) for c in filt] if filt else '')
             if ok:
-                elem = ('elem', it, loop[2].lineno)
-                rid, res = ('unpack', elem, 0), ('unpack', elem, 1)
-                ok = (len(apps) == 1 and apps[0][2][0][0] == 'tuple' and len(apps[0][2][0][1]) == 3
-                      and apps[0][2][0][1][1] == rid and apps[0][2][0][1][2] == res
-                      and apps[0][2][0][1][0] == ('call', N(_ADDER[0]), (A(res, 'cat'),), ())
-                      and st.ret == apps[0][1][1])
-                detail += '; appends %s' % [show(a[2][0]) for a in apps]
+                elt = r[1]
+                is_elem = lambda t: t[0] == 'elem' and t[1] == it
+                ok = (elt[0] == 'tuple' and len(elt[1]) == 3
+                      and elt[1][1][0] == 'unpack' and is_elem(elt[1][1][1]) and elt[1][1][2] == 0
+                      and elt[1][2][0] == 'unpack' and is_elem(elt[1][2][1]) and elt[1][2][2] == 1
+                      and elt[1][0] == ('call', N(_ADDER[0]), (A(elt[1][2], 'cat'),), ()))
+                detail += '; each element is %s' % show(elt)
         rep.check(ok, R, w, 'run:%s-callback:positions' % kind,
                   '%s callback returns (cat_id, position, result) for every grammar result, positions from 0 (%s)' % (kind, detail),
                   '%s callback does not enumerate every result from 0: %s' % (kind, detail))
@@ -462,6 +460,7 @@ def r_sentence_loop(repo, rep, R, table_info):
         return
     fresh_per_sentence = True
     counts = []
+    failure_values = []
     for st, out in entered:
         evs = st.events
         i0 = [i for i, e in enumerate(evs) if e[0] == 'loop-enter' and e[-1] is loop][0]
@@ -477,10 +476,10 @@ def r_sentence_loop(repo, rep, R, table_info):
         too_long = any('max_length' in show(c) and pol for c, pol, _ in st.conds)
         for a in apps:
             v = a[2][0]
-            fnames = {f_.name for f_ in find_failed(run)}
-            is_failed = v[0] == 'call' and v[1][0] == 'func' and v[1][1] in fnames
             if status_fail or too_long:
-                rep.check(is_failed, R, w(loop), 'run:loop:failure-placeholder:%s' % ('status' if status_fail else 'length'),
+                leaf_ok, inf_ok = placeholder_shape(v)
+                failure_values.append(v)
+                rep.check(leaf_ok or inf_ok, R, w(loop), 'run:loop:failure-placeholder:%s' % ('status' if status_fail else 'length'),
                           'a sentence that %s yields only its own failure placeholder' % ('fails to parse' if status_fail else 'is too long'),
                           'a failing sentence appends %s' % show(v))
             elif ps_call:
@@ -520,59 +519,67 @@ def r_sentence_loop(repo, rep, R, table_info):
               'append counts per path through the sentence loop: %s' % sorted(set(counts)))
     rep.check(fresh_per_sentence, R, w(loop), 'run:loop:fresh-buffers', 'tree and score buffers are created inside the sentence loop',
               'tree/score buffers are created outside the sentence loop and carry over between sentences')
-    # failed()
-    failed = find_failed(run)
-    ok = False
-    detail = 'failed() not found'
-    if failed:
-        ps_ = SymExec(failed[0]).run()
-        if len(ps_) == 1 and ps_[0][0].ret is not None:
-            r = ps_[0][0].ret
-            detail = show(r)
-            if r[0] == 'list' and len(r[1]) == 1 and r[1][0][0] == 'call' and r[1][0][1] == N('ScoredTree'):
-                kw_ = dict(r[1][0][3])
-                pos = list(r[1][0][2])
-                sc = kw_.get('score', pos[1] if len(pos) > 1 else None)
-                neg_inf = {('unop', '-', ('call', N('float'), (C('inf'),), ())), ('call', N('float'), (C('-inf'),), ()),
-                           ('unop', '-', A(N('math'), 'inf')), ('unop', '-', A(N('numpy'), 'inf'))}
-                tr = kw_.get('tree', pos[0] if pos else None)
-                ok = sc in neg_inf and tr is not None and tr[0] == 'call' and tr[1] == A(N('Tree'), 'make_terminal')
-    rep.check(ok, R, w(failed[0] if failed else run), 'run:failed', 'the failure placeholder is a fresh one-element list whose score is minus infinity (%s)' % detail,
+    # the placeholder itself
+    ok = bool(failure_values) and all(placeholder_shape(v)[1] for v in failure_values)
+    detail = '; '.join(sorted({show(v)[:120] for v in failure_values})) or 'no failing path appends anything'
+    rep.check(ok, R, w(run), 'run:failed', 'the failure placeholder is a fresh one-element list whose score is minus infinity (%s)' % detail,
               'failure placeholder is %s' % detail)
     # status test form
     return {'paths': len(entered)}
 
 
-def find_failed(run):
-    """the nested zero-argument helper of run() that builds the failure placeholder (by role, not by name)"""
-    c = [s_ for s_ in run.body if isinstance(s_, ast.FunctionDef) and 'ScoredTree' in src(s_) and 'make_terminal' in src(s_)
-         and not any(isinstance(n, ast.Call) and src(n.func) == 'parse_sentence' for n in ast.walk(s_))]
-    return c
+NEG_INF = {('unop', '-', ('call', N('float'), (C('inf'),), ())), ('call', N('float'), (C('-inf'),), ()),
+           ('unop', '-', A(N('math'), 'inf')), ('unop', '-', A(N('numpy'), 'inf')), ('unop', '-', A(N('np'), 'inf'))}
+
+
+def placeholder_shape(v):
+    """(single_leaf, neg_inf) for the value a failing sentence contributes: a list made at that point (literal, so fresh
+    for every sentence) of one ScoredTree whose tree is one terminal with a constant word and a plain atomic category,
+    and whose score is minus infinity.  Helper functions building it have been inlined by the walker."""
+    if not (v[0] == 'list' and len(v[1]) == 1 and v[1][0][0] == 'call' and v[1][0][1] == N('ScoredTree')):
+        return False, False
+    kw_ = dict(v[1][0][3])
+    pos = list(v[1][0][2])
+    tr = kw_.get('tree', pos[0] if pos else None)
+    sc = kw_.get('score', pos[1] if len(pos) > 1 else None)
+    is_term = tr is not None and tr[0] == 'call' and tr[1] == A(N('Tree'), 'make_terminal')
+    leaf = False
+    if is_term and len(tr[2]) == 2 and not tr[3]:
+        wd, ct = tr[2]
+        leaf = wd[0] == 'const' and isinstance(wd[1], str) and ct[0] == 'call' and ct[1] == A(N('Category'), 'parse') and \
+            bool(ct[2]) and ct[2][0][0] == 'const' and isinstance(ct[2][0][1], str) and not any(ch in ct[2][0][1] for ch in '/\\|[]()')
+    return leaf, (sc in NEG_INF and is_term)
+
+
+def failure_values(repo):
+    """values appended to run()'s result on paths where a sentence is too long or parse_sentence reports failure"""
+    mod, run = _run_fn(repo)
+    loops = [s for s in run.body if isinstance(s, ast.For)
+             and any(isinstance(n, ast.Call) and src(n.func) == 'parse_sentence' for n in ast.walk(s))]
+    if len(loops) != 1:
+        raise AnalysisError('%s: sentence loop calling parse_sentence not found' % REL)
+    loop = loops[0]
+    out = []
+    for st, o in SymExec(run, unroll=1).run():
+        if o == 'raise' or not (st.ret and st.ret[0] == 'alloc'):
+            continue
+        acc = st.ret
+        ps_call = [e[1] for e in st.events if e[0] == 'call' and e[1][1] == N('parse_sentence')]
+        status_fail = any(c[0] == 'cmp' and c[1] in ('>', '!=') and c[3] == C(0) and pol and ps_call and c[2] == ps_call[0]
+                          for c, pol, _ in st.conds)
+        too_long = any('max_length' in show(c) and pol for c, pol, _ in st.conds)
+        if status_fail or too_long:
+            out.extend((e[1][2][0], e[-1]) for e in st.events if e[0] == 'call' and is_method_call(e[1], 'append') and e[1][1][1] == acc)
+    return run, out
 
 
 def r_failed_placeholder(repo, rep, R):
     """the failure placeholder is one fresh single-leaf tree (word constant, plain atomic category) with score -inf:
     every printer handles a leaf, none needs a rule label for it."""
-    mod, run = _run_fn(repo)
-    failed = find_failed(run)
-    w = '%s:%s run.failed' % (REL, failed[0].lineno if failed else run.lineno)
-    ok = False
-    detail = 'failed() not found'
-    if failed and not failed[0].args.args:
-        ps_ = SymExec(failed[0]).run()
-        if len(ps_) == 1 and ps_[0][0].ret is not None:
-            r = ps_[0][0].ret
-            detail = show(r)[:120]
-            if r[0] == 'list' and len(r[1]) == 1 and r[1][0][0] == 'call' and r[1][0][1] == N('ScoredTree'):
-                kw_ = dict(r[1][0][3])
-                pos = list(r[1][0][2])
-                tr = kw_.get('tree', pos[0] if pos else None)
-                if tr is not None and tr[0] == 'call' and tr[1] == A(N('Tree'), 'make_terminal') and len(tr[2]) == 2 and not tr[3]:
-                    wd, ct = tr[2]
-                    ok = wd[0] == 'const' and isinstance(wd[1], str) and ct[0] == 'call' and ct[1] == A(N('Category'), 'parse') and \
-                        ct[2] and ct[2][0][0] == 'const' and not any(ch in ct[2][0][1] for ch in '/\\|[]()')
-    elif failed:
-        detail = 'failed() takes arguments %s' % [a.arg for a in failed[0].args.args]
+    run, vals = failure_values(repo)
+    w = '%s:%s run' % (REL, vals[0][1].lineno if vals else run.lineno)
+    detail = '; '.join(sorted({show(v)[:120] for v, _ in vals})) or 'no failing path appends a value'
+    ok = bool(vals) and all(placeholder_shape(v)[0] for v, _ in vals)
     rep.check(ok, R, w, 'run:failed:single-leaf', 'the failure placeholder is a single leaf with a constant word and a plain atomic category (%s)' % detail,
               'the failure placeholder is not a single constant leaf: %s -- printers would need labels / token fields it does not have' % detail)
 
